@@ -117,7 +117,7 @@ func (_this *interfaceBuilder) BuildFromArray(ctx *Context, arrayType events.Arr
 		dst.Set(reflect.ValueOf(arrays.BytesToFloat64Slice(value)))
 	case events.ArrayTypeString:
 		dst.Set(reflect.ValueOf(string(value)))
-	case events.ArrayTypeResourceID:
+	case events.ArrayTypeResourceID, events.ArrayTypeReferenceRemote:
 		setPRIDFromString(string(value), dst)
 	default:
 		panic(fmt.Errorf("TODO: Typed array support for %v", arrayType))
